@@ -93,7 +93,7 @@ func (C12) Generate(r *rand.Rand, tier string, idx int) *drv.Scenario {
 	}
 	// min_mutation_id_start only counts above DVID's built-in 1e9: 0-2 below a multiple of 100 beyond it
 	k.MutIDStart = 1000000000 + 1000*uint64(1+r.IntN(50)) + 100*uint64(r.IntN(10)) - uint64(r.IntN(3))
-	return &drv.Scenario{Family: fam, Knobs: k, Steps: steps, Fixed: 2}
+	return lockSwarm(&drv.Scenario{Family: fam, Knobs: k, Steps: steps, Fixed: 2}, idx)
 }
 
 type c12State struct {
